@@ -30,11 +30,15 @@ D1 == {"src", "gen", "gen2", "genx", ".hid", "sub"} \cup ExcludedDirs
 D2 == {"sub", "gen", "build", "node_modules"}
 DirPaths == {<<>>} \cup {<<d>> : d \in D1} \cup {<<d1, d2>> : d1 \in {"src", "gen", "build"}, d2 \in D2}
 Names == {[stem |-> "a", ext |-> "py"], [stem |-> "keep", ext |-> "ts"], [stem |-> "a", ext |-> "pyc"],
-          [stem |-> "lib", ext |-> "so"], [stem |-> "gen_notes", ext |-> "txt"]}
+          [stem |-> "lib", ext |-> "so"], [stem |-> "gen_notes", ext |-> "txt"],
+          [stem |-> "vendor.min", ext |-> "ts"]}             \* a compound extension: vendor.min.ts
 Universe == {[dirs |-> d, stem |-> n.stem, ext |-> n.ext] : d \in DirPaths, n \in Names}
 
 \* "x starts with y" for the atoms above (x # y)
 StartsWith == {<<"gen2", "gen">>, <<"genx", "gen">>, <<"gen_notes", "gen">>, <<"sub", "su">>}
+
+\* "the stem x ends with .y" (compound extensions)
+StemEndsWith == {<<"vendor.min", "min">>}
 
 Patterns == {
     [kind |-> "dir",   dirs |-> <<"gen">>, stem |-> "", ext |-> ""],          \* gen/
@@ -42,6 +46,7 @@ Patterns == {
     [kind |-> "dir",   dirs |-> <<".hid">>, stem |-> "", ext |-> ""],         \* .hid/
     [kind |-> "ext",   dirs |-> <<>>, stem |-> "", ext |-> "ts"],             \* *.ts
     [kind |-> "ext",   dirs |-> <<>>, stem |-> "", ext |-> "txt"],            \* *.txt
+    [kind |-> "ext2",  dirs |-> <<>>, stem |-> "min", ext |-> "ts"],          \* *.min.ts (like *.d.ts, *.generated.py)
     [kind |-> "exact", dirs |-> <<"src">>, stem |-> "a", ext |-> "py"],       \* src/a.py
     [kind |-> "exact", dirs |-> <<>>, stem |-> "keep", ext |-> "ts"],         \* keep.ts
     [kind |-> "exact", dirs |-> <<"gen", "sub">>, stem |-> "a", ext |-> "py"],\* gen/sub/a.py
@@ -69,6 +74,7 @@ Direct(f, t) == f.dirs = t
 MatchesA(p, f) ==
     CASE p.kind = "dir"   -> p.dirs[1] \in ToSet(f.dirs)
       [] p.kind = "ext"   -> f.ext = p.ext
+      [] p.kind = "ext2"  -> f.ext = p.ext /\ <<f.stem, p.stem>> \in StemEndsWith
       [] p.kind = "exact" -> f.dirs = p.dirs /\ f.stem = p.stem /\ f.ext = p.ext
       [] p.kind = "tree"  -> IsPrefix(p.dirs, f.dirs)
       [] p.kind = "any"   -> f.stem = p.stem /\ f.ext = p.ext /\ Len(f.dirs) >= 1
@@ -96,6 +102,7 @@ MatchesB(p, f) ==
                              \/ (DirPatternPrefixFallback /\ <<FirstComponent(f), p.dirs[1]>> \in StartsWith)
                              \/ (DirPatternPrefixFallback /\ FirstComponent(f) = p.dirs[1])
       [] p.kind = "ext"   -> f.ext = p.ext
+      [] p.kind = "ext2"  -> f.ext = p.ext /\ <<f.stem, p.stem>> \in StemEndsWith
       [] p.kind = "exact" -> f.dirs = p.dirs /\ f.stem = p.stem /\ f.ext = p.ext
       [] p.kind = "tree"  -> IsPrefix(p.dirs, f.dirs)
       [] p.kind = "any"   -> f.stem = p.stem /\ f.ext = p.ext /\ Len(f.dirs) >= 1
